@@ -34,6 +34,7 @@ type AtClause struct {
 	After  bool
 	Kind   string // assert | assume | bind
 	Name   string // bind name
+	Sort   string // declared sort of a bind (needed when the name is used on paths that bypass the anchor)
 	Clause
 }
 
@@ -50,7 +51,12 @@ type FuncContract struct {
 	}
 	Modifies    []Clause
 	HasModifies bool
+	Locals      []struct {
+		Name string
+		Clause
+	}
 	LoopInv     map[int][]Clause
+	LoopFrame   map[int]bool
 	Ats         []AtClause
 	Flags       map[string][]string // flag -> tags / args (nopanic, trusted, fresh_result, may_panic, pure, ...)
 	Props       map[string]bool     // properties this function is listed under (from tags)
@@ -91,16 +97,17 @@ type Contracts struct {
 	Types  map[string]*TypeContract
 	Specs  map[string]*SpecFun
 	Ghosts map[string]string // name -> sort spec
+	LocalGhost map[string]bool
 	Axioms []Clause
 	Lemmas []*Lemma
 	Sources []string
 }
 
 func newContracts() *Contracts {
-	return &Contracts{Preds: map[string]*PredDef{}, Funcs: map[string]*FuncContract{}, Types: map[string]*TypeContract{}, Specs: map[string]*SpecFun{}, Ghosts: map[string]string{}}
+	return &Contracts{Preds: map[string]*PredDef{}, Funcs: map[string]*FuncContract{}, Types: map[string]*TypeContract{}, Specs: map[string]*SpecFun{}, Ghosts: map[string]string{}, LocalGhost: map[string]bool{}}
 }
 
-var tagRe = regexp.MustCompile(`\s*\[([A-Za-z0-9_.\-']+)\]\s*$`)
+var tagRe = regexp.MustCompile(`\s*\[(C\d{2,3}(?:\.[A-Za-z0-9_\-']+)?|nospawn|trusted)\]\s*$`)
 
 func splitTags(s string) (string, []string) {
 	var tags []string
@@ -341,6 +348,23 @@ func (cs *Contracts) LoadFile(path string, goFile bool) error {
 				Name string
 				Clause
 			}{strings.TrimSpace(rest[:i]), c})
+		case word == "local":
+			i := strings.Index(rest, ":=")
+			j := strings.Index(rest, ":")
+			if i < 0 || j < 0 || j >= i {
+				return fmt.Errorf("%s:%d: bad local clause (local name: Sort := expr)", path, ln.no)
+			}
+			name := strings.TrimSpace(rest[:j])
+			cs.Ghosts[name] = strings.TrimSpace(rest[j+1 : i])
+			cs.LocalGhost[name] = true
+			c, err := mk(rest[i+2:], ln.no)
+			if err != nil {
+				return err
+			}
+			cur.Locals = append(cur.Locals, struct {
+				Name string
+				Clause
+			}{name, c})
 		case word == "modifies":
 			cur.HasModifies = true
 			body, tags := splitTags(rest)
@@ -361,6 +385,13 @@ func (cs *Contracts) LoadFile(path string, goFile bool) error {
 			if err != nil {
 				return fmt.Errorf("%s:%d: bad loop ordinal", path, ln.no)
 			}
+			if strings.HasPrefix(rest, "frame") {
+				if cur.LoopFrame == nil {
+					cur.LoopFrame = map[int]bool{}
+				}
+				cur.LoopFrame[n] = true
+				continue
+			}
 			rest = strings.TrimSpace(strings.TrimPrefix(rest, "invariant"))
 			c, err := mk(rest, ln.no)
 			if err != nil {
@@ -371,22 +402,26 @@ func (cs *Contracts) LoadFile(path string, goFile bool) error {
 			// at <anchor> (assert|assume|bind) ...
 			idx := -1
 			kind := ""
-			for _, k := range []string{" assert ", " assume ", " bind "} {
+			for _, k := range []string{" assert ", " assume ", " bind ", " set "} {
 				if i := strings.Index(rest, k); i >= 0 && (idx < 0 || i < idx) {
 					idx, kind = i, strings.TrimSpace(k)
 				}
 			}
 			if idx < 0 {
-				return fmt.Errorf("%s:%d: at-clause needs assert/assume/bind", path, ln.no)
+				return fmt.Errorf("%s:%d: at-clause needs assert/assume/bind/set", path, ln.no)
 			}
 			ac := AtClause{Anchor: strings.TrimSpace(rest[:idx]), After: word == "after", Kind: kind}
 			body := strings.TrimSpace(rest[idx+len(kind)+1:])
-			if kind == "bind" {
+			if kind == "bind" || kind == "set" {
 				i := strings.Index(body, ":=")
 				if i < 0 {
 					return fmt.Errorf("%s:%d: bad bind", path, ln.no)
 				}
 				ac.Name = strings.TrimSpace(body[:i])
+				if j := strings.Index(ac.Name, ":"); j >= 0 {
+					ac.Sort = strings.TrimSpace(ac.Name[j+1:])
+					ac.Name = strings.TrimSpace(ac.Name[:j])
+				}
 				body = body[i+2:]
 			}
 			c, err := mk(body, ln.no)
